@@ -581,7 +581,10 @@ _C_BODIES = ["", " c ", "x=1;", " END ", "'", '"', " ( { < ", " # ", "\n multi\n
 _H_BODIES = ["", " c", "x=1;", " END", "'", '"', " ( { <", " #", " a * b", "= =",
              " GROUP = g", ";;", "<m>", " it's", ' say "hi', " a/*b", " */", " x /* y */",
              " a//b", " ----------", "-", " see x-", " - ", " a -\t",
-             " ---- geometry ----", " END", " /* -", "#-", " y" * 2100]
+             " ---- geometry ----", " END", " /* -", "#-", " y" * 2100,
+             # comments that end in something a value could end in
+             " set at 12:30", " 23:59:59.5", " t=1:02", " 2001-01-01", " 1.5e", " 16#FF",
+             " x <m>", " 2#1", ' "', " a =", " ("]
 
 
 def _sep(rng, d, required, mode):
